@@ -560,6 +560,42 @@ class C09(PropertyCheck):
         "the adaptive sub-size scheme taken when over_sampling is None (config driven; all ones under the pinned config) is an input of the model, not modelled",
         "functools.wraps / *args / **kwargs plumbing of the decorator; cached_property on the over sampler",
     ]
+    modelled_functions = [
+        "autoarray/geometry/geometry_util.py:central_pixel_coordinates_2d_from",
+        "autoarray/geometry/geometry_util.py:central_scaled_coordinate_2d_from",
+        "autoarray/structures/grids/grid_2d_util.py:grid_2d_slim_via_mask_from",
+        "autoarray/mask/derive/grid_2d.py:DeriveGrid2D.unmasked",
+        "autoarray/mask/mask_2d_util.py:total_pixels_2d_from",
+        "autoarray/operators/over_sampling/over_sample_util.py:total_sub_pixels_2d_from",
+        "autoarray/operators/over_sampling/over_sample_util.py:grid_2d_slim_over_sampled_via_mask_from",
+        "autoarray/operators/over_sampling/over_sample_util.py:slim_index_for_sub_slim_index_via_mask_2d_from",
+        "autoarray/operators/over_sampling/over_sample_util.py:native_sub_index_for_slim_sub_index_2d_from",
+        "autoarray/operators/over_sampling/over_sample_util.py:binned_array_2d_from",
+        "autoarray/operators/over_sampling/uniform.py:OverSamplingUniform.__init__",
+        "autoarray/operators/over_sampling/uniform.py:OverSamplingUniform.over_sampler_from",
+        "autoarray/operators/over_sampling/uniform.py:OverSamplerUniform.__init__",
+        "autoarray/operators/over_sampling/uniform.py:OverSamplerUniform.sub_total",
+        "autoarray/operators/over_sampling/uniform.py:OverSamplerUniform.sub_pixel_areas",
+        "autoarray/operators/over_sampling/uniform.py:OverSamplerUniform.over_sampled_grid",
+        "autoarray/operators/over_sampling/uniform.py:OverSamplerUniform.binned_array_2d_from",
+        "autoarray/operators/over_sampling/uniform.py:OverSamplerUniform.array_via_func_from",
+        "autoarray/operators/over_sampling/uniform.py:OverSamplerUniform.sub_mask_native_for_sub_mask_slim",
+        "autoarray/operators/over_sampling/uniform.py:OverSamplerUniform.slim_for_sub_slim",
+        "autoarray/operators/over_sampling/decorator.py:perform_over_sampling_from",
+        "autoarray/operators/over_sampling/decorator.py:over_sample",
+        "autoarray/operators/over_sampling/grid_oversampled.py:Grid2DOverSampled.__init__",
+        "autoarray/operators/over_sampling/iterate.py:OverSamplingIterate.__init__",
+        "autoarray/operators/over_sampling/iterate.py:OverSamplingIterate.over_sampler_from",
+        "autoarray/operators/over_sampling/iterate.py:threshold_mask_via_arrays_jit_from",
+        "autoarray/operators/over_sampling/iterate.py:iterated_array_jit_from",
+        "autoarray/operators/over_sampling/iterate.py:OverSamplerIterate.__init__",
+        "autoarray/operators/over_sampling/iterate.py:OverSamplerIterate.array_at_sub_size_from",
+        "autoarray/operators/over_sampling/iterate.py:OverSamplerIterate.threshold_mask_from",
+        "autoarray/operators/over_sampling/iterate.py:OverSamplerIterate.array_via_func_from",
+        "autoarray/structures/grids/uniform_2d.py:Grid2D.over_sampler",
+        "autoarray/structures/arrays/array_2d_util.py:array_2d_native_from",
+        "autoarray/structures/arrays/array_2d_util.py:array_2d_slim_from",
+    ]
     assumptions = [
         "sub-size maps have one integer entry in 1..8 per unmasked pixel; schedules are non-empty lists of Python ints",
         "the user function is a pure function of the (y,x) points (plus, for the table generator, of the call count) returning finite values",
